@@ -10,6 +10,8 @@ type ReplayFn = fn(&str, serde_json::Value) -> (Option<Failure>, u32, u32);
 fn registry() -> Vec<(&'static str, MainFn, ReplayFn)> {
     vec![
         ("C01", props::c01::main as MainFn, props::c01::replay as ReplayFn),
+        ("C02", props::c02::main as MainFn, props::c02::replay as ReplayFn),
+        ("C03", props::c03::main as MainFn, props::c03::replay as ReplayFn),
     ]
 }
 
